@@ -505,7 +505,7 @@ pub fn run_batch(spec: &CheckSpec, thorough: bool, base_seed: u64, runs_override
         "coverage": {
             "evaluations": cov.evaluations.max(0),
             "distinct_nontrivial": distinct,
-            "rule": spec.rule.replace("HIST ", crate::HIST),
+            "rule": format!("{}{}", spec.rule.replace("HIST ", crate::HIST), rule_addenda(spec.id)),
             "samples": samples,
             "simulated_runs": runs,
             "seeds": format!("{}..{}", base_seed, base_seed.wrapping_add(runs)),
@@ -559,4 +559,30 @@ pub fn run_batch(spec: &CheckSpec, thorough: bool, base_seed: u64, runs_override
         }
     }
     exit
+}
+
+
+/// what later rounds of seeded changes added to each check's rule (kept apart from the original rule texts in main.rs)
+fn rule_addenda(id: &str) -> &'static str {
+    match id {
+        "C01" => " Added later: a drain step refused for any reason but a clock fault is a violation; integer-limit liquidity amounts; dust-lot round trips; Byzantine providers naming foreign / neighbouring tick arrays.",
+        "C03" => " Added later: the rules also run in transfer-fee worlds; the current tick moves with the trade and stays the tick of the price; a v1 route never spends the trader's own intermediate tokens.",
+        "C04" => " Added later: frame-condition monitor (settings / authorities / position claims change only under the recorded authority's signature; identity fields never); third-party delegates, parked tokens, rival config + pool pairs, cross-account neighbouring roles.",
+        "C05" => " Added later: the tick arrays of a pool tile the tick axis; the keeper creates arrays at any start; the life-cycle LP funds whatever range it managed to open or reset to.",
+        "C06" => " Added later: a step is never accepted as split-as-configured above the documented protocol-fee cap.",
+        "C07" => " Added later: shares are measured against the in-range total of the position accounts (the statement's denominator).",
+        "C08" => " Added later: by-token-amounts deposits at the price edges of the range and at the maxima where the one-sided liquidity reaches 2^64 / 2^128; deposits with the pool on a protocol price bound; chosen fractional parts of the token-B cost; liquidity x price distance at 2^128 / 2^192; the Anchor implementation compared on Token-2022 pools; reposition forks with a zero net transfer.",
+        "C10" => " Added later: read-only arrays, the other encoding of the same content, the neighbouring array of the same pool, duplicated slice types.",
+        "C11" => " Added later: an initialised reward index keeps its mint and vault; clocks that read a negative time; the legacy-pool migration may change nothing but the repurposed fields.",
+        "C12" => " Added later: reposition compared with its Anchor decomposition; zero-length slices in the remaining-accounts description.",
+        "C13" => " Added later: accessor-level sequences on raw buffers through hook H3 (four array kinds side by side).",
+        "C14" => " Added later: the fee taken on a step follows its rate; constants satisfy the validity rules, change only through a call naming their pool and restart the variables; read-only oracle forks; high-frequency chain runs.",
+        "C15" => " Added later: frame-condition monitor (no tick array / position / oracle / lock record of another pool changes); one more account appended to fully named calls; routes that do not chain; duplicated slice types; v1 forms on Token-2022 pools.",
+        "C16" => " Added later: mints that also carry badge-gated extensions (close authority, permanent delegate, default account state) in either order.",
+        "C17" => " Added later: cyclic routes; a trader one unit short; fee-aware decomposition of refused routes in transfer-fee / hook worlds; any refusal of the program's own needs a reason the single swaps would have met too; duplicated slice types.",
+        "C18" => " Added later: bundle invariants after every transaction; wrapping addition amounts, a small deposit through the frozen account and a second empty unfrozen account in the locked-position probe; mismatched bundle indexes.",
+        "C19" => " Added later: setters echo their arguments; accumulator x group size at 2^32; group sizes dividing related quantities; bare 82-byte Token-2022 mints, dangling TLV tails, native mints; rewards over the pool's own mints.",
+        "C20" => " Added later: tick math sampled over the whole range; liquidity quotes at the u64 edge; amount-delta functions compared at extreme magnitudes on reached prices.",
+        _ => "",
+    }
 }
